@@ -27,6 +27,7 @@ import (
 	"github.com/anishathalye/porcupine"
 	"github.com/btcsuite/btcd/btcutil"
 	"github.com/btcsuite/btcd/btcutil/psbt"
+	"github.com/btcsuite/btcd/btcutil/hdkeychain"
 	"github.com/btcsuite/btcd/txscript"
 	"github.com/btcsuite/btcd/wire"
 	"github.com/btcsuite/btcwallet/waddrmgr"
@@ -43,6 +44,7 @@ const P = "C09"
 type branchKey struct {
 	scope  waddrmgr.KeyScope
 	branch uint32
+	acct   uint32
 }
 
 type opIn struct {
@@ -138,11 +140,73 @@ func runWallet(r *evid.Run, dir string, cs int64) {
 				index[a.EncodeAddress()] = struct {
 					k   branchKey
 					idx int
-				}{branchKey{s, br}, int(i)}
+				}{branchKey{s, br, 0}, int(i)}
 			}
 		}
 	}
-	keyOf := func(k branchKey) string { return fmt.Sprintf("%v/0/%d", k.scope, k.branch) }
+	keyOf := func(k branchKey) string { return fmt.Sprintf("%v/%d/%d", k.scope, k.acct, k.branch) }
+	// An imported extended-public-key account (BIP84) joins the default accounts.
+	// Before the concurrent round it issues DIFFERENT numbers of receiving and
+	// change addresses, and the wallet is restarted, so that the round starts from
+	// counters loaded from the database.
+	impScope := waddrmgr.KeyScopeBIP0084
+	impAcct := uint32(0)
+	haveImp := false
+	preIssued := map[string]bool{}
+	{
+		sd := make([]byte, 32)
+		rg.Read(sd)
+		leg, _, _, err := oracle.AccountKey(sd, impScope.Purpose, impScope.Coin, 0)
+		if err == nil {
+			pub := leg.Neuter()
+			hd := hdkeychain.NewExtendedKey(f.Params.HDPublicKeyID[:], pub.Pub[:], pub.Chain[:], []byte{1, 2, 3, 4}, 3, oracle.H, false)
+			at := waddrmgr.WitnessPubKey
+			props, err := f.W.ImportAccount(fmt.Sprintf("imported-%d", rg.Intn(1e6)), hd, rg.Uint32(), &at)
+			if err != nil {
+				r.Violation("c09:harness-setup", "ImportAccount: "+err.Error(), "wallet", cs, nil)
+				return
+			}
+			impAcct, haveImp = props.AccountNumber, true
+			for br := uint32(0); br < 2; br++ {
+				bk, _ := leg.Child(br, false)
+				for i := uint32(0); i < 400; i++ {
+					ck, err := bk.Child(i, false)
+					if err != nil {
+						continue
+					}
+					a, _ := oracle.Address(ck.Pub, oracle.P2WPKH, f.Params)
+					index[a.EncodeAddress()] = struct {
+						k   branchKey
+						idx int
+					}{branchKey{impScope, br, impAcct}, int(i)}
+				}
+			}
+			na, nb := rg.Intn(6), rg.Intn(6)
+			for i := 0; i < na; i++ {
+				if a, err := f.W.NewAddress(impAcct, impScope); err == nil {
+					preIssued[a.EncodeAddress()] = true
+				}
+			}
+			for i := 0; i < nb; i++ {
+				if a, err := f.W.NewChangeAddress(impAcct, impScope); err == nil {
+					preIssued[a.EncodeAddress()] = true
+				}
+			}
+		}
+	}
+	// restart: the concurrent round runs on counters read back from the database
+	if rg.Intn(3) != 0 {
+		f.Stop()
+		if err := f.Open(0, true); err != nil {
+			if errors.Is(err, wh.ErrNotSynced) {
+				r.Inconclusive("resync watchdog")
+				return
+			}
+			r.Violation("c09:harness-setup", "reopen: "+err.Error(), "wallet", cs, nil)
+			return
+		}
+		r.Hit("wallets-restarted-before-the-round", 1)
+	}
 	// initial next indices
 	init := map[string]int{}
 	for _, s := range scopes {
@@ -151,8 +215,18 @@ func runWallet(r *evid.Run, dir string, cs int64) {
 			r.Violation("c09:harness-setup", err.Error(), "wallet", cs, nil)
 			return
 		}
-		init[keyOf(branchKey{s, 0})] = int(p.ExternalKeyCount)
-		init[keyOf(branchKey{s, 1})] = int(p.InternalKeyCount)
+		init[keyOf(branchKey{s, 0, 0})] = int(p.ExternalKeyCount)
+		init[keyOf(branchKey{s, 1, 0})] = int(p.InternalKeyCount)
+	}
+	if haveImp {
+		// what was issued before the restart defines the starting counters: a
+		// restarted wallet must continue exactly there
+		n := [2]int{}
+		for a := range preIssued {
+			n[index[a].k.branch]++
+		}
+		init[keyOf(branchKey{impScope, 0, impAcct})] = n[0]
+		init[keyOf(branchKey{impScope, 1, impAcct})] = n[1]
 	}
 	// widen the commit-callback window
 	var dmu sync.Mutex
@@ -217,7 +291,7 @@ func runWallet(r *evid.Run, dir string, cs int64) {
 	plan := make([][]int, G)
 	for g := range plan {
 		for k := 0; k < K; k++ {
-			plan[g] = append(plan[g], rg.Intn(9))
+			plan[g] = append(plan[g], rg.Intn(11))
 		}
 	}
 	for g := 0; g < G; g++ {
@@ -243,6 +317,21 @@ func runWallet(r *evid.Run, dir string, cs int64) {
 					a, err := f.W.CurrentAddress(0, s)
 					if err == nil {
 						record(g, opIn{Kind: "current", Desc: fmt.Sprintf("CurrentAddress(%v)", s)}, call, a.EncodeAddress())
+					}
+				case 9, 10: // the imported account
+					if !haveImp {
+						continue
+					}
+					if plan[g][k] == 9 {
+						a, err := f.W.NewAddress(impAcct, impScope)
+						if err == nil {
+							record(g, opIn{Kind: "new", Desc: "NewAddress(imported account)"}, call, a.EncodeAddress())
+						}
+					} else {
+						a, err := f.W.NewChangeAddress(impAcct, impScope)
+						if err == nil {
+							record(g, opIn{Kind: "new", Desc: "NewChangeAddress(imported account)"}, call, a.EncodeAddress())
+						}
 					}
 				case 6: // a transaction that needs change
 					sc := waddrmgr.KeyScopeBIP0084
@@ -374,8 +463,20 @@ func runWallet(r *evid.Run, dir string, cs int64) {
 				if err != nil {
 					return err
 				}
-				out[keyOf(branchKey{s, 0})] = int(p.ExternalKeyCount)
-				out[keyOf(branchKey{s, 1})] = int(p.InternalKeyCount)
+				out[keyOf(branchKey{s, 0, 0})] = int(p.ExternalKeyCount)
+				out[keyOf(branchKey{s, 1, 0})] = int(p.InternalKeyCount)
+			}
+			if haveImp {
+				sm, err := m.FetchScopedKeyManager(impScope)
+				if err != nil {
+					return err
+				}
+				p, err := sm.AccountProperties(ns, impAcct)
+				if err != nil {
+					return err
+				}
+				out[keyOf(branchKey{impScope, 0, impAcct})] = int(p.ExternalKeyCount)
+				out[keyOf(branchKey{impScope, 1, impAcct})] = int(p.InternalKeyCount)
 			}
 			return nil
 		})
@@ -498,7 +599,7 @@ func raceReports() (int, string) {
 
 func main() {
 	r := evid.New(P, "exploration")
-	r.Rule("complete funded wallets (unlocked for the whole run); 8..32 goroutines x 4..8 calls (<= 180 per history) mixing NewAddress, NewChangeAddress, CurrentAddress on two key scopes, CreateSimpleTx that needs change (real and dry run) and FundPsbt with and without caller-supplied inputs, while the database wrapper delays every commit callback by 0 / <=300 us / <=2 ms; each returned address is mapped to (branch, index) by the independent derivation oracle; porcupine checks each branch's history against a sequential next-index counter (CurrentAddress may return the last unused index); afterwards: no index twice, key counts not behind the issued indices, a manager opened on a copy of the database reports the same counts. All under the Go race detector; a report whose two stacks both come from issuing calls is a violation. Non-trivial = history with > 20 recorded issuing calls; distinct = distinct (seed, goroutines, calls, delay); distinct interleavings = distinct recorded histories.")
+	r.Rule("complete funded wallets (unlocked for the whole run); 8..32 goroutines x 4..8 calls (<= 180 per history) mixing NewAddress, NewChangeAddress, CurrentAddress on two key scopes of the default account and NewAddress / NewChangeAddress on an imported extended-public-key account (which issued 0..5 receiving and 0..5 change addresses beforehand; two of three wallets are stopped and reopened before the round, so that its counters come from the database), CreateSimpleTx that needs change (real and dry run) and FundPsbt with and without caller-supplied inputs, while the database wrapper delays every commit callback by 0 / <=300 us / <=2 ms; each returned address is mapped to (branch, index) by the independent derivation oracle; porcupine checks each branch's history against a sequential next-index counter (CurrentAddress may return the last unused index); afterwards: no index twice, key counts not behind the issued indices, a manager opened on a copy of the database reports the same counts. All under the Go race detector; a report whose two stacks both come from issuing calls is a violation. Non-trivial = history with > 20 recorded issuing calls; distinct = distinct (seed, goroutines, calls, delay); distinct interleavings = distinct recorded histories.")
 	r.Trusted("porcupine v1.3.0 linearizability checker", "independent BIP32 oracle for address -> index", "Go race detector")
 	r.Assume("schedules are sampled, widened at the commit-callback window only", "calls that return an error are not part of the history (they must not have consumed an index: covered by the gap/linearizability check of later calls)")
 	dir, _ := os.MkdirTemp("", "c09")
